@@ -8,6 +8,12 @@ import os
 from .common import VERIF_DIR
 
 CHECKS = {
+    "C01": dict(
+        technique="differential property-based testing against CPython's ast.parse: grammar-generated programs, layout variants, corpus statements; field-by-field and span-by-span tree comparison",
+        text="Exploration: every generated/corpus Python text CPython accepts (inside the property's domain) must give a tree equal to ast.parse's in node classes, field values and all four position attributes, in exec and eval mode. Held on everything generated except the listed finding D7 (non-ASCII columns).",
+        note="Reference = the CPython 3.12 running the check. The comparison is my own recursive astdiff (not ast.dump). Domain exclusions (f-strings, '@(', BOM/NUL, nesting>50) are counted in the evidence.",
+        ref="DESIGN.md §4 C01",
+    ),
     "C08": dict(
         technique="property-based testing: generated and mutated texts (Hypothesis-driven grammar, corpus, mutation, soup) against a pure tiling oracle over (text, token list)",
         text="Exploration: every generated text the tokenizer finishes on is checked against an oracle that needs nothing but the text and the token list (slice equality, order, gap shape, NEWLINE/INDENT/DEDENT/ENDMARKER structure). Held on everything generated; no proof.",
